@@ -544,6 +544,33 @@ func goTableRule(c *Ctx, rule string) {
 				}
 				row, ok := goTable[key]
 				if !ok {
+					// the spawned function may have been renamed: if this spawner has exactly one row that no
+					// go statement of the tree matches, that row is this goroutine
+					var cands []string
+					for k := range goTable {
+						if !strings.HasPrefix(k, fnShort(fn)+" -> ") {
+							continue
+						}
+						matched := false
+						for _, b2 := range fn.Blocks {
+							for _, in2 := range b2.Instrs {
+								if g2, ok := in2.(*ssa.Go); ok && g2.Call.StaticCallee() != nil && g2.Call.StaticCallee().Parent() == nil {
+									if fnShort(fn)+" -> "+fnShort(g2.Call.StaticCallee()) == k {
+										matched = true
+									}
+								}
+							}
+						}
+						if !matched {
+							cands = append(cands, k)
+						}
+					}
+					if len(cands) == 1 && cal.Parent() == nil {
+						key = cands[0]
+						row, ok = goTable[key], true
+					}
+				}
+				if !ok {
 					r.Fail(rule, "unlisted goroutine "+key, p.Pos(g.Pos()), "a `go` statement without a row in the lifecycle table: nothing shows that it is cancelled and joined on close")
 					continue
 				}
